@@ -256,6 +256,7 @@ fn main() {
         "C08" => vec!["C08", "C01", "C02"],
         "C12" => vec!["C12", "C01"],
         "C07" => vec!["C07", "C01"],
+        "C04" => vec!["C04", "C14/panic", "C15/panic", "C16/panic", "C20/panic", "C12/panic"],
         p => vec![p],
     };
     for r in &reports {
